@@ -23,18 +23,19 @@ type Env struct {
 }
 
 type RunResult struct {
-	Violations   []*Violation     `json:"violations,omitempty"`
-	Stats        map[string]int64 `json:"stats"`
-	EventHash    string           `json:"event_hash"`
-	Fingerprints []string         `json:"fingerprints,omitempty"`
-	SimMs        int64            `json:"sim_ms"`
-	Abandoned    string           `json:"abandoned,omitempty"` // run ended early for a reason that is not a violation
-	Harness      string           `json:"harness,omitempty"`   // harness trouble (exit 2)
-	Stmts        int              `json:"stmts"`
-	Images       int              `json:"images"`
-	EvCounts     []int            `json:"ev_counts,omitempty"` // yield points per statement of the main timeline
-	Trace        []string         `json:"trace,omitempty"`     // per-statement outcome digest of the main timeline
-	DerivedPlan  *Plan            `json:"derived_plan,omitempty"`
+	Violations    []*Violation     `json:"violations,omitempty"`
+	Stats         map[string]int64 `json:"stats"`
+	EventHash     string           `json:"event_hash"`
+	Fingerprints  []string         `json:"fingerprints,omitempty"`
+	SimMs         int64            `json:"sim_ms"`
+	Abandoned     string           `json:"abandoned,omitempty"`      // run ended early for a reason that is not a violation
+	PressureHints []int64          `json:"pressure_hints,omitempty"` // cache events at which a page not held by the file sat clean in the cache (main timeline)
+	Harness       string           `json:"harness,omitempty"`        // harness trouble (exit 2)
+	Stmts         int              `json:"stmts"`
+	Images        int              `json:"images"`
+	EvCounts      []int            `json:"ev_counts,omitempty"` // yield points per statement of the main timeline
+	Trace         []string         `json:"trace,omitempty"`     // per-statement outcome digest of the main timeline
+	DerivedPlan   *Plan            `json:"derived_plan,omitempty"`
 }
 
 func (r *RunResult) addStats(m map[string]int64) {
@@ -44,10 +45,10 @@ func (r *RunResult) addStats(m map[string]int64) {
 }
 
 type runner struct {
-	plan *Plan
-	env  *Env
-	res  *RunResult
-	hash hasher
+	plan   *Plan
+	env    *Env
+	res    *RunResult
+	hash   hasher
 	nWorld int
 }
 
@@ -58,7 +59,9 @@ func monitorsFor(prop string) Monitors {
 	case "C12":
 		return Monitors{Page: true}
 	case "C15":
-		return Monitors{LRU: true}
+		return Monitors{LRU: true, Evict: true}
+	case "C16", "C01", "C11", "C08":
+		return Monitors{Evict: true}
 	case "C02", "C03":
 		return Monitors{Durable: true}
 	}
@@ -123,6 +126,7 @@ func (r *runner) runWorld(p *Plan, m *Model, img *Image, path string, chain []ma
 		return
 	}
 	w.mon = monitorsFor(r.plan.Prop)
+	w.isMain = path == ""
 	t := &timeline{r: r, w: w, m: m, plan: p, path: path, chain: chain, selChain: selChain}
 	func() {
 		defer func() {
@@ -148,6 +152,9 @@ func (r *runner) runWorld(p *Plan, m *Model, img *Image, path string, chain []ma
 		}
 	}()
 	r.res.addStats(w.Stats)
+	if w.isMain {
+		r.res.PressureHints = w.PressureHints
+	}
 	r.res.SimMs += w.ClockMs
 	r.hash.add(uint64(w.Hash))
 	if t.shape != "" {
@@ -205,17 +212,17 @@ func mergeKnobs(parent, k Knobs) Knobs {
 }
 
 type timeline struct {
-	r     *runner
-	w     *World
-	m     *Model
-	plan  *Plan
-	path  string
-	shape string
-	stop  bool
-	img   *Image
-	chain []map[string]string // infos of ancestor images (own image excluded)
-	selChain []ImageSel       // resolved selectors of the images on the path (own image included)
-	phase string
+	r          *runner
+	w          *World
+	m          *Model
+	plan       *Plan
+	path       string
+	shape      string
+	stop       bool
+	img        *Image
+	chain      []map[string]string // infos of ancestor images (own image excluded)
+	selChain   []ImageSel          // resolved selectors of the images on the path (own image included)
+	phase      string
 	unmodelled bool // a raw statement the model cannot follow may have changed the database
 	// probes for the shape fingerprint
 	probes map[string]bool
